@@ -311,3 +311,97 @@ class TokenKeysEngine:
         if len(obls) < c.min_obligations:
             raise StaleContract(f"{c.qualname}: {len(obls)} key uses of the token parameters {tokens} found, contract expects {c.min_obligations}")
         return obls
+
+
+class SwitchTableEngine:
+    """obligations over the *switching statements* of a function: the calls that enable / disable knobs and targets.
+
+    A switching statement is a top-level statement of the form  `CALL`  or  `if <name> is not None: CALL`  where CALL calls one of the
+    contract's `callees` (a module-level function by name, or a method as `self.<m>`).  Each is normalised to a row
+        (guard name or None, callee, {parameter: source text of the argument})
+    with the arguments bound to the REAL signature of the callee (positional / keyword / default spellings are the same row).
+    Obligations, one per expected row: the k-th switching statement is that row; no further switching statement; none of the callees is
+    called anywhere else in the function (nested in a loop, in an expression ...); with `split_at` (source text of a loop's iterable): the
+    first `split` rows precede that loop and the others follow it.
+    A switching call wrapped in anything else (try, a different test, several statements under one guard) is outside the subset."""
+
+    def __init__(self, registry, opts=None):
+        self.reg = registry
+        self.trivial_frames = 0
+
+    def _callee(self, call):
+        f = call.func
+        if isinstance(f, ast.Name):
+            return f.id
+        if isinstance(f, ast.Attribute) and isinstance(f.value, ast.Name) and f.value.id == "self":
+            return "self." + f.attr
+        return None
+
+    def _bind(self, call, d, method):
+        pos = [a.arg for a in d.args.posonlyargs + d.args.args][(1 if method else 0):]
+        defaults = dict(zip(pos[len(pos) - len(d.args.defaults):], d.args.defaults))
+        if any(isinstance(a, ast.Starred) for a in call.args) or any(k.arg is None for k in call.keywords) or len(call.args) > len(pos):
+            raise StaleContract("star-arguments / too many arguments in a switching call")
+        row = {p: _norm(ast.unparse(a)) for p, a in zip(pos, call.args)}
+        for k in call.keywords:
+            if k.arg not in pos or k.arg in row:
+                raise StaleContract(f"keyword {k.arg!r} in a switching call")
+            row[k.arg] = _norm(ast.unparse(k.value))
+        for p in pos:
+            if p not in row:
+                if p not in defaults:
+                    raise StaleContract(f"argument {p!r} missing in a switching call")
+                row[p] = _norm(ast.unparse(defaults[p]))
+        return row
+
+    def verify(self, c, fdef, classctx=None):
+        from . import extract
+        callees = list(c.extra["callees"])
+        defs = {}
+        for cal in callees:
+            if cal.startswith("self."):
+                if classctx is None:
+                    raise StaleContract(f"{c.qualname}: not a method")
+                found = [n for n in classctx.body if isinstance(n, ast.FunctionDef) and n.name == cal[5:]]
+                if not found:
+                    raise StaleContract(f"{c.qualname}: {cal} is not defined in the class")
+                defs[cal] = (found[-1], True)
+            else:
+                defs[cal] = (extract.module(c.module).find(cal)[0], False)
+        flag = c.extra.get("flag_attr", "active")
+        direct = [n for n in ast.walk(fdef) if isinstance(n, ast.Attribute) and n.attr == flag]
+        if direct:
+            # the function reads / writes the flags itself (e.g. saves and restores them): a different design, not decided by this table
+            raise StaleContract(f"{c.qualname}: handles `.{flag}` directly (line {direct[0].lineno}): outside the switch-table subset")
+        rows, sites = [], set()
+        for s in fdef.body:
+            guard, inner = None, s
+            if isinstance(s, ast.If) and not s.orelse and len(s.body) == 1 and isinstance(s.test, ast.Compare) and len(s.test.ops) == 1 \
+                    and isinstance(s.test.ops[0], ast.IsNot) and isinstance(s.test.left, ast.Name) \
+                    and isinstance(s.test.comparators[0], ast.Constant) and s.test.comparators[0].value is None:
+                guard, inner = s.test.left.id, s.body[0]
+            if isinstance(inner, ast.Expr) and isinstance(inner.value, ast.Call) and self._callee(inner.value) in callees:
+                cal = self._callee(inner.value)
+                rows.append((guard, cal, self._bind(inner.value, *defs[cal]), s.lineno))
+                sites.add(id(inner.value))
+        other = [n for n in ast.walk(fdef) if isinstance(n, ast.Call) and self._callee(n) in callees and id(n) not in sites]
+        expected = list(c.extra["rows"])
+        obls = []
+
+        def emit(label, ok, lineno=0):
+            obls.append(Obligation(f"{c.module}:{c.qualname}#switch:{label}", "post", [], z3.BoolVal(bool(ok)), c.qualname, lineno))
+        for k, exp in enumerate(expected):
+            got = rows[k][:3] if k < len(rows) else None
+            eg, ec, ea = exp
+            emit(f"{k}:{'if ' + eg + ' is not None: ' if eg else ''}{ec}({', '.join(f'{p}={v}' for p, v in ea.items())})",
+                 got is not None and got[0] == eg and got[1] == ec and got[2] == ea, rows[k][3] if k < len(rows) else fdef.lineno)
+        emit("no-further-switching-statement", len(rows) <= len(expected), rows[len(expected)][3] if len(rows) > len(expected) else 0)
+        emit("no-switching-call-anywhere-else", not other, other[0].lineno if other else 0)
+        if c.extra.get("split_at"):
+            loops = [s for s in fdef.body if isinstance(s, (ast.For, ast.While)) and _norm(ast.unparse(s.iter if isinstance(s, ast.For) else s.test)) == _norm(c.extra["split_at"])]
+            if len(loops) != 1:
+                raise StaleContract(f"{c.qualname}: stepping loop `{c.extra['split_at']}` not found at the top level")
+            ln, k0 = loops[0].lineno, c.extra["split"]
+            emit("the-first-rows-precede-the-stepping-loop-the-others-follow-it",
+                 all(r[3] < ln for r in rows[:k0]) and all(r[3] > loops[0].end_lineno for r in rows[k0:]), ln)
+        return obls
